@@ -160,6 +160,59 @@ func genFrame(r *hlib.Rng, need []string) (qframe.QFrame, []genCol) {
 
 // derive scrambles the row index with 0-3 index-changing operations so that physical and logical order differ.
 func derive(r *hlib.Rng, qf qframe.QFrame, cols []genCol, s *hlib.Suite) (qframe.QFrame, []string) {
+	q, _, h := deriveCols(r, qf, cols, s)
+	return q, h
+}
+
+// deriveCols additionally derives the COLUMN structure (0-2 steps: all columns re-selected in another order, a
+// column appended by Copy — which leaves the column slice with spare capacity —, positions shifted by dropping a
+// column placed in front), so that the operation under test sees frames "however derived" also with respect to
+// the by-name map / position book-keeping.  It returns the columns of the derived frame.
+func deriveCols(r *hlib.Rng, qf qframe.QFrame, cols []genCol, s *hlib.Suite) (qframe.QFrame, []genCol, []string) {
+	cols = append([]genCol{}, cols...)
+	pre := []string{}
+	kc := 0
+	if r.Chance(1, 2) {
+		kc = 1 + r.Intn(2)
+	}
+	for i := 0; i < kc; i++ {
+		switch r.Intn(3) {
+		case 0: // re-select all columns in a random order
+			p := r.Perm(len(cols))
+			names := make([]string, len(cols))
+			nc := make([]genCol, len(cols))
+			for j, k := range p {
+				names[j], nc[j] = cols[k].name, cols[k]
+			}
+			qf, cols = qf.Select(names...), nc
+			pre = append(pre, "select("+strings.Join(names, ",")+")")
+		case 1: // append a copy of a column under a fresh name
+			c := cols[r.Intn(len(cols))]
+			nn := fmt.Sprintf("Z%d", i)
+			qf = qf.Copy(nn, c.name)
+			pre = append(pre, "copy("+nn+","+c.name+")")
+			c.name = nn
+			cols = append(cols, c)
+		case 2: // put a scratch column in front, then drop it: every remaining column changes its position
+			names := []string{"zz"}
+			for _, c := range cols {
+				names = append(names, c.name)
+			}
+			qf = qf.Copy("zz", cols[0].name).Select(names...).Drop("zz")
+			pre = append(pre, "copy(zz)+select(zz first)+drop(zz)")
+		}
+		if qf.Err != nil {
+			panic(fmt.Sprintf("deriveCols: %v", qf.Err))
+		}
+	}
+	if len(pre) > 0 {
+		s.Count("derived-columns")
+	}
+	q, h := deriveIndex(r, qf, cols, s)
+	return q, cols, append(pre, h...)
+}
+
+func deriveIndex(r *hlib.Rng, qf qframe.QFrame, cols []genCol, s *hlib.Suite) (qframe.QFrame, []string) {
 	hist := []string{}
 	k := r.Intn(4)
 	for i := 0; i < k && qf.Len() > 0; i++ {
